@@ -462,10 +462,25 @@ def spaces(tier, variant, seed):
         if ref[0] == "skip":
             return ("byte", base, "skip")
         check_set(R, s, base, ref[1] if ref[0] == "ok" else None, "byte %#x in %r" % (max(ord(c) for c in s), s))
+        if base:
+            # the stream reader: leading white space and sign, then the longest run of digits of the base; no digit at all = 0 returned
+            for t in (s, " " + s, "-" + s if not s.startswith("-") else "\n" + s, " \t-" + s.lstrip("-")):
+                i = 0
+                while i < len(t) and t[i] in WS:
+                    i += 1
+                neg = i < len(t) and t[i] == "-"
+                if neg:
+                    i += 1
+                v, nd = 0, 0
+                while i < len(t) and digit_value(t[i], base) is not None:
+                    v = v * base + digit_value(t[i], base)
+                    i += 1
+                    nd += 1
+                check_inp(R, t, base, (-v if neg else v) if nd else None, i, "stream %r" % t)
         return ("byte", base, ref[0], len(s), ord(s[-1]) >> 4)
 
     sp.append(Space("set_str_every_byte", EB, eb_cases, eb_one,
-                    "mpz_set_str / mpz_init_set_str: every byte value 1..255 placed first, in the middle and last in seven short templates, bases 0 and 2..62"))
+                    "mpz_set_str / mpz_init_set_str (and mpz_inp_str with leading white space / sign, bases 2..62): every byte value 1..255 placed first, in the middle and last in seven short templates, bases 0 and 2..62"))
 
     # mpq_set_str / mpq_get_str
     QN = [0, 1, -1, 7, -12, 255, 1 << 64, -((1 << 64) + 1), al.PAT(3)["dense"], 10 ** 30]
